@@ -15,9 +15,11 @@ SEMANTIC_OPS = {
     'tm_accepts_word', 'tm_words_up_to_n', 'cfg_accepts_word', 'cfg_words_up_to_n', 'cfg_to_chomsky', 'cfg_add_new_start_variable',
     'cfg_remove_epsilon_rules', 'cfg_eliminate_unit_rules', 'cfg_make_rules_of_length_two', 'cfg_eliminate_terminals',
     'cfg_remove_useless_rules', 'cfg_apply_chomsky', 'regexp_accepts_word', 'regexp_words_up_to_n', 'regexp_simplify', 'regexp_to_nfa',
-    'print_regexp', 'print_regexp_simple', 'reparse_dfa', 'reparse_nfa', 'reparse_pda', 'reparse_cfg', 'reparse_regexp', 'language_helpers', 'generate_language_words', 'language_reverse_words', 'concatenation_words', 'parse_printed_nfa', 'parse_printed_pda',
+    'reparse_dfa', 'reparse_nfa', 'reparse_pda', 'reparse_cfg', 'language_helpers', 'generate_language_words', 'language_reverse_words', 'concatenation_words', 'parse_printed_nfa', 'parse_printed_pda',
 }
-# witness-returning operations are never compared (C15 allows any valid witness)
+# witness-returning operations are never compared (C15 allows any valid witness).  The regexp printers are NOT semantic:
+# the concrete syntax is ambiguous for alphabets containing 0, 1 or multi-character symbols, so the re-parsed language is
+# a function of the tree, not of the operand's language (they are compared for equal operand snapshots only)
 
 
 def is_semantic(name):
